@@ -75,6 +75,10 @@ func init() {
 			e.emit("valid %s nil", hs(append(append([]byte("[0."), v...), ']')))
 			e.emit("valid %s nil", hs(append(append([]byte("1e"), v[:min(len(v), 12)]...), ' ')))
 		})
+		nearClassRuns("strchars", func(v []byte) {
+			e.emit("valid %s nil", hs(append(append([]byte{'"'}, v...), '"')))
+			e.emit("valid %s nil", hs(append(append([]byte(`{"`), v...), []byte(`":1}`)...)))
+		})
 		nearClassRuns("spaces", func(v []byte) {
 			e.emit("valid %s nil", hs(append(append([]byte{}, v...), '1')))
 			e.emit("valid %s nil", hs(append(append([]byte("[1,"), v...), []byte("2]")...)))
@@ -121,6 +125,10 @@ func init() {
 			e.emit("skip %s nil", hs(v))
 			e.emit("skip %s nil", hs(append([]byte("-0."), v...)))
 		})
+		nearClassRuns("strchars", func(v []byte) {
+			e.emit("skip %s nil", hs(append(append([]byte{'"'}, v...), []byte(`" x`)...)))
+			e.emit("skip %s nil", hs(append(append([]byte(`["`), v...), []byte(`"]`)...)))
+		})
 		nearClassRuns("spaces", func(v []byte) {
 			e.emit("skip %s nil", hs(append(append([]byte{}, v...), []byte("true x")...)))
 			e.emit("skip %s nil", hs(append(append([]byte("[1"), v...), []byte(",2]")...)))
@@ -157,6 +165,18 @@ func init() {
 	// C11: fast agrees with strict on well-formed values
 	suites["c11"] = func(e *emitter, r *rng, thorough bool) {
 		usedBufferHistories(e, []string{"skipfast"}, false)
+		nearClassRuns("strchars", func(v []byte) {
+			e.emit("skipfast %s nil", hs(append(append([]byte(`["`), v...), []byte(`"]`)...)))
+			e.emit("skipfast %s nil", hs(append(append([]byte(`{"k":"`), v...), []byte(`"} `)...)))
+		})
+		nearClassRuns("spaces", func(v []byte) {
+			e.emit("skipfast %s nil", hs(append(append([]byte("[1"), v...), []byte(",[2]]")...)))
+			e.emit("skipfast %s nil", hs(append(append([]byte{}, v...), []byte(`{"a":1}`)...)))
+		})
+		nearClassRuns("digits", func(v []byte) {
+			e.emit("skipfast %s nil", hs(append(append([]byte("[0."), v...), ']')))
+			e.emit("skipfast %s nil", hs(v))
+		})
 		strs := []string{`"]"`, `"["`, `"}"`, `"{"`, `"\""`, `"\\"`, `"\\\""`, `"]\"["`, `"a]"`, `"]"`, `""`}
 		for _, s1 := range strs {
 			for _, s2 := range strs {
@@ -197,6 +217,23 @@ func init() {
 	// C07: well-behaved handlers see each member once, in order
 	suites["c07"] = func(e *emitter, r *rng, thorough bool) {
 		usedBufferHistories(e, []string{"skip"}, true) // traversal still validates, whatever Buffer it is given
+		for _, cl := range []string{"strchars", "digits", "spaces"} {
+			cl := cl
+			nearClassRuns(cl, func(v []byte) {
+				var m []byte
+				switch cl {
+				case "strchars":
+					m = append(append([]byte{'"'}, v...), '"')
+				case "digits":
+					m = append([]byte("0."), v...)
+				default:
+					m = append(append([]byte("1"), v...), []byte(",2")...)
+				}
+				e.emit("harr %s 0,0,0 nil", hs(append(append([]byte("[[1],"), m...), ']')))
+				e.emit("harr %s x,x,x -", hs(append(append([]byte("["), m...), []byte(",[]]")...)))
+				e.emit("hobj %s 0,x,0 nil", hs(append(append([]byte(`{"a":{},"k":`), m...), '}')))
+			})
+		}
 		// exhaustive strategy vectors for documents with <= 4 (quick) / 6 (thorough) members
 		maxm := 4
 		if thorough {
